@@ -236,5 +236,6 @@ def main(tier):
                        kind="Range", guard_pass=False)
     ranges.check_balance(run, fx)
     from ..rules import extra
+    extra.check_duration_field_tables(run, fx)
     extra.check_total_includes_days(run, fx)
     return run.finish(EXPLANATION)
